@@ -26,10 +26,108 @@ def paths(tree, prefix=()):
   return sorted(out)
 
 
+def gen_shared(rng):
+  """an instance graph: leaves and wrappers (wrappers of wrappers), passed as fields of one parent, some of them to several places"""
+  insts = [{'kind': 'leaf', 'w': rng.randint(1, 3)} for _ in range(rng.randint(1, 3))]
+  for _ in range(rng.randint(0, 3)):
+    insts.append({'kind': 'wrap', 'inner': rng.randrange(len(insts)), 'w': rng.randint(0, 2)})
+  names = ['a', 'b', 'c', 'd'][:rng.randint(2, 4)]
+  fields = {f: rng.randrange(len(insts)) for f in names}
+  if rng.random() < 0.6:
+    # make sure something is shared: two fields reach the same leaf, directly or through wrappers
+    f1, f2 = rng.sample(names, 2)
+    tgt = fields[f1]
+    while insts[tgt]['kind'] == 'wrap' and rng.random() < 0.7:
+      tgt = insts[tgt]['inner']
+    if rng.random() < 0.5:
+      insts.append({'kind': 'wrap', 'inner': tgt, 'w': rng.randint(0, 2)})
+      fields[f2] = len(insts) - 1
+    else:
+      fields[f2] = tgt
+  calls = [rng.choice(names) for _ in range(rng.randint(2, 5))]
+
+  def chain(i):
+    out = [i]
+    while insts[out[-1]]['kind'] == 'wrap':
+      out.append(insts[out[-1]]['inner'])
+    return out
+  pairs = []
+  for i, f1 in enumerate(names):
+    for f2 in names[i + 1:]:
+      c1, c2 = chain(fields[f1]), chain(fields[f2])
+      for d1, o1 in enumerate(c1):
+        for d2, o2 in enumerate(c2):
+          if o1 == o2:
+            pairs.append([f1, f2, [d1, d2]])
+  return {'insts': insts, 'fields': fields, 'calls': calls, 'x': rng.randint(-2, 3), 'identity_pairs': pairs[:4]}
+
+
+def shared_reference(c, rounds):
+  """evaluates the instance graph by identity: one parameter and one call counter per instance"""
+  counts = {}
+  ys = []
+
+  def call(i, x):
+    d = c['insts'][i]
+    counts[i] = counts.get(i, 0) + 1
+    if d['kind'] == 'leaf':
+      return x * d['w'] + counts[i]
+    n = counts[i]
+    return call(d['inner'], x) * 2 + d['w'] + n
+  snaps = []
+  for _ in range(rounds):
+    x = c['x']
+    for f in c['calls']:
+      x = call(c['fields'][f], x)
+    ys.append(x)
+    snaps.append(dict(counts))
+  return ys, snaps
+
+
+def run_shared(chk):
+  rng = chk.rng
+  n = 600 if chk.tier == 'thorough' else 60
+  cases = [gen_shared(rng) for _ in range(n)]
+  W = 6
+  results = common.run_impl_parallel('impl_c02_shared.py', [{'cases': cases[i::W]} for i in range(W)], workers=W, timeout=1500)
+  obs = [None] * len(cases)
+  for k, r in enumerate(results):
+    for j, o in enumerate(r['cases']):
+      obs[k + W * j] = o
+  nshared = 0
+  for c, o in zip(cases, obs):
+    shared = len(c['identity_pairs']) > 0
+    nshared += shared
+    chk.count({'shared_attr': c}, shared)
+    if 'err' in o:
+      chk.violation('oracle', 'a module with submodule instances passed as attributes (shared between parents) could not be initialised / applied / bound: %s %s' % (o['err'], o.get('msg')),
+                    {'case': c, 'tb': o.get('tb')})
+      continue
+    r = o['ok']
+    ys, snaps = shared_reference(c, 2)
+    what = None
+    if r['y_init'] != ys[0]:
+      what = 'init output differs from the instance graph evaluated by identity (one set of variables per instance)'
+    elif sorted(v for _, v in r['counts']) != sorted(snaps[0].values()):
+      what = 'the call counters after init are not one per module instance (an instance shared by reference got several sets of variables, or two instances share one)'
+    elif len(r['params']) != len(snaps[0]):
+      what = 'the number of parameter sets differs from the number of distinct module instances that were called'
+    elif r['y_apply'] != ys[1] or sorted(v for _, v in r['counts_apply']) != sorted(snaps[1].values()):
+      what = 'apply on the variables of init does not continue from them (output or counters differ from the reference)'
+    elif sorted(p for p, _ in r['counts']) != sorted(p for p, _ in r['counts_apply']) or sorted(p for p, _ in r['counts']) != sorted(p for p, _ in r['params']):
+      what = 'init and apply disagree on the variable paths'
+    elif not all(r['same']):
+      what = 'bind() gives two different objects for one submodule instance reachable from two attributes'
+    if what:
+      chk.violation('oracle', what, {'case': c, 'observed': r, 'reference_outputs': ys, 'reference_counts': snaps})
+  chk.notes['shared_attribute_modules'] = {'cases': len(cases), 'with_sharing': nshared}
+
+
 def run(chk):
   rng = chk.rng
   thorough = chk.tier == 'thorough'
   chk.proofs(PROOF_FILES)
+  run_shared(chk)
   cases = []
   for i in range(4000 if thorough else 280):
     n = rng.choice([1, 2, 3])
